@@ -527,6 +527,49 @@ fn prefixed_source_bytes(d: &[u8]) -> u64 {
     acc
 }
 
+/// F14 (DESIGN.md section 11): `rewrite` and `flatten` hand every token's source and name to the
+/// builder as strings, which copies and hashes them once per token, so their cost is
+/// (number of tokens) x (length of the source or name). Estimate of that product for the delivered
+/// document, summed over every map object in it: mapping segments times the longest string among
+/// `sources` (with `sourceRoot` in front) and `names`. Used only to tell the recorded finding
+/// from any other run that does not finish.
+fn name_length_times_tokens(d: &[u8]) -> u64 {
+    fn walk(v: &serde_json::Value, acc: &mut u64) {
+        match v {
+            serde_json::Value::Object(o) => {
+                if let Some(serde_json::Value::String(m)) = o.get("mappings") {
+                    let segs = m.split(|c| c == ',' || c == ';').filter(|s| !s.is_empty()).count() as u64;
+                    let root = o.get("sourceRoot").and_then(|r| r.as_str()).map(str::len).unwrap_or(0);
+                    let longest = |key: &str, extra: usize| {
+                        o.get(key).and_then(|a| a.as_array()).map(|a| a.iter().filter_map(|s| s.as_str()).map(|s| s.len() + extra).max().unwrap_or(0)).unwrap_or(0)
+                    };
+                    let l = longest("sources", root + 1).max(longest("names", 0)) as u64;
+                    *acc = acc.saturating_add(segs.saturating_mul(l));
+                }
+                for x in o.values() {
+                    walk(x, acc);
+                }
+            }
+            serde_json::Value::Array(a) => {
+                for x in a {
+                    walk(x, acc);
+                }
+            }
+            _ => {}
+        }
+    }
+    let Some(start) = d.iter().position(|&b| b == b'{') else { return 0 };
+    let mut acc = 0;
+    if let Some(Ok(v)) = serde_json::Deserializer::from_slice(&d[start..]).into_iter::<serde_json::Value>().next() {
+        walk(&v, &mut acc);
+    }
+    acc
+}
+
+/// Above this product the copies and hashes alone take longer than the quick backstop allows
+/// (measured: about 3.6e9 byte-steps per second and rewrite; a run makes up to eight rewrites).
+const NAME_LENGTH_TIMES_TOKENS_EXPLAINS: u64 = 5_000_000_000;
+
 pub fn execute(c: &Case) -> Exec {
     let d = delivered(&c.events);
     let mut rdr = SimReader::new(&c.events);
@@ -1350,7 +1393,14 @@ pub fn main(args: &Args) -> i32 {
         } else if sig == "harness" {
             acc.harness.push(format!("run {idx}: {detail}"));
         } else {
-            let sig = if sig.starts_with("abort:") || sig == "hang-backstop" { format!("{sig}:{}", c.entry.name()) } else { sig };
+            let w = if sig == "hang-backstop" { name_length_times_tokens(&delivered(&c.events)) } else { 0 };
+            let (sig, detail) = if sig == "hang-backstop" && w >= NAME_LENGTH_TIMES_TOKENS_EXPLAINS {
+                ("hang-backstop:name-length-x-tokens".to_string(), format!("{detail}; the document has (mapping segments) x (longest source or name) = {w} byte-steps, which rewrite and flatten spend once over"))
+            } else if sig.starts_with("abort:") || sig == "hang-backstop" {
+                (format!("{sig}:{}", c.entry.name()), detail)
+            } else {
+                (sig, detail)
+            };
             acc.violations.add(sig, idx, format!("{detail} (entry point {}, doc {})", c.entry.name(), c.label));
         }
     }
@@ -1378,7 +1428,9 @@ pub fn main(args: &Args) -> i32 {
         let run_seed = rng::mix(base_seed, run_domain(), *idx);
         let c = gen_case(&mut Rng::new(run_seed), &fx);
         // abort-class signatures carry the entry-point suffix added above; probe on the bare class
-        let probe_sig = if sig.starts_with("abort:") || sig.starts_with("hang-backstop") {
+        let probe_sig = if sig.starts_with("hang-backstop") {
+            "hang-backstop".to_string()
+        } else if sig.starts_with("abort:") {
             sig.strip_suffix(&format!(":{}", c.entry.name())).unwrap_or(sig).to_string()
         } else {
             sig.clone()
